@@ -48,7 +48,7 @@ theorem itemAt_safe (st : RState) (level : Nat) (h : level < st.items.length) :
   simp [itemAt, h, Safe]
 
 theorem getValuePath_safe (cx : RCtx R) (hg : cx.guardIndexRead = true) (base length : Nat)
-    (hb : base + length < cx.content.length) :
+    (hb : base + length ≤ cx.content.length) :
     ∀ fuel v offset, Safe (getValuePath cx base length fuel v offset offset) (fun _ => True) := by
   intro fuel
   induction fuel with
@@ -143,7 +143,7 @@ theorem renderVariable_safe (cx : RCtx R) (hg : cx.guardIndexRead = true) (st : 
     simp only [Option.some.injEq, Prod.mk.injEq] at hw
     obtain ⟨hs, he⟩ := hw
     have hv := hc.1
-    have hb : v.off + v.len < cx.content.length := by
+    have hb : v.off + v.len ≤ cx.content.length := by
       simp only [wfVar, Bool.and_eq_true, decide_eq_true_eq] at hv; exact hv.1
     have hp : W1.variablePrefixLength = 5 := by decide
     have hf : W1.variableFullLength = 6 := by decide
@@ -192,7 +192,7 @@ theorem renderRawVariable_safe (cx : RCtx R) (hg : cx.guardIndexRead = true) (st
     simp only [Option.some.injEq, Prod.mk.injEq] at hw
     obtain ⟨hs, he⟩ := hw
     have hv := hc.1
-    have hb : v.off + v.len < cx.content.length := by
+    have hb : v.off + v.len ≤ cx.content.length := by
       simp only [wfVar, Bool.and_eq_true, decide_eq_true_eq] at hv; exact hv.1
     have hp : W1.rawVariablePrefixLength = 5 := by decide
     have hf : W1.rawVariableFullLength = 6 := by decide
@@ -471,7 +471,7 @@ theorem sSvar_succ (cx : RCtx R) (hg : cx.guardIndexRead = true) (f : Nat) (hS :
                   · rename_i hc
                     simp only [Bool.and_eq_true, decide_eq_true_eq] at hc
                     simp only [Option.some.injEq, Prod.mk.injEq] at hwt
-                    exact ⟨hc.2, hwt.1.symm⟩
+                    exact ⟨hc.2.1, hwt.1.symm⟩
                   · simp at hwt
                 apply Safe.bind (subChk_safe v.off W1.variablePrefixLength h5.1)
                 intro o ho
@@ -494,7 +494,7 @@ theorem sSvar_succ (cx : RCtx R) (hg : cx.guardIndexRead = true) (f : Nat) (hS :
                   · rename_i hc
                     simp only [Bool.and_eq_true, decide_eq_true_eq] at hc
                     simp only [Option.some.injEq, Prod.mk.injEq] at hwt
-                    exact ⟨hc.2, hwt.1.symm⟩
+                    exact ⟨hc.2.1, hwt.1.symm⟩
                   · simp at hwt
                 apply Safe.bind (subChk_safe v.off W1.rawVariablePrefixLength h5.1)
                 intro o ho
